@@ -19,5 +19,7 @@ func main() {
 	hx.Register("c07c", c07cMain)
 	hx.Register("c07h", c07hMain)
 	hx.Register("c04seq", c04seqMain)
+	hx.Register("c04run", c04runMain)
+	hx.Register("c04runh", c04runhMain)
 	hx.Main()
 }
